@@ -258,3 +258,51 @@ def function_breakdown(res):
         for f in m.get('function-breakdown', []):
             out.setdefault(f['function'], []).append(f)
     return out
+
+
+# ---------------------------------------------------------------------------------------------
+# Kani leaf units (kani/units.json): a harness appended to a scratch copy of the real crate. Used only for functions that
+# Verus cannot ingest (unsafe code) and only with harnesses that are COMPLETE (full-domain symbolic inputs, constant loop
+# bounds with unwinding assertions on); anything bounded would be labelled as such and never counted as discharged.
+KANI_TARGET = os.path.join(CACHE, 'kani-target')
+
+
+def kani_units(prop=None):
+    p = os.path.join(VERIF, 'kani', 'units.json')
+    if not os.path.exists(p):
+        return []
+    us = json.load(open(p))
+    return [u for u in us if prop is None or prop in u['props']]
+
+
+def run_kani(unit, timeout=900):
+    scratch = tempfile.mkdtemp(prefix='dryoc_kani.', dir=os.environ.get('VERIF_SCRATCH', '/var/tmp'))
+    t0 = time.time()
+    try:
+        shutil.copytree(os.path.join(REPO, 'src'), os.path.join(scratch, 'src'))
+        for f in ('Cargo.toml', 'Cargo.lock'):
+            shutil.copy(os.path.join(REPO, f), scratch)
+        with open(os.path.join(VERIF, unit['harness_file'])) as f:
+            harness = f.read()
+        with open(os.path.join(scratch, unit['append_to']), 'a') as f:
+            f.write(harness)
+        env = dict(os.environ, CARGO_NET_OFFLINE='true', CARGO_TARGET_DIR=KANI_TARGET)
+        cmd = ['cargo', 'kani'] + unit.get('flags', []) + ['--harness', unit['name']]
+        try:
+            r = subprocess.run(cmd, cwd=scratch, env=env, stdout=subprocess.PIPE, stderr=subprocess.STDOUT, text=True,
+                               timeout=timeout)
+            out, rc = r.stdout, r.returncode
+        except subprocess.TimeoutExpired as e:
+            out, rc = (e.stdout or b'').decode(errors='replace') if isinstance(e.stdout, bytes) else (e.stdout or ''), 124
+        verdict = 'undecided'
+        failed = re.findall(r'Failed Checks: (.*)', out)
+        if 'VERIFICATION:- SUCCESSFUL' in out and '1 successfully verified harnesses, 0 failures' in out:
+            verdict = 'discharged'
+        elif 'VERIFICATION:- FAILED' in out and failed and not any('unwinding assertion' in f or 'not currently supported' in f
+                                                                 for f in failed):
+            verdict = 'failed'
+        return {'name': unit['name'], 'verdict': verdict, 'failed_checks': failed[:10], 'rc': rc, 'wall_s': time.time() - t0,
+                'cmd': ' '.join(cmd), 'tail': out[-3000:], 'backs': unit.get('backs'), 'complete': unit.get('complete', False),
+                'what': unit.get('what')}
+    finally:
+        shutil.rmtree(scratch, ignore_errors=True)
